@@ -28,7 +28,10 @@ def parseEntry (s : String) : Option TarEntry :=
   match s.splitOn ":" with
   | [t, name, cid, link] =>
     match t.toList, unhexS name, cid.toNat?, unhexS link with
-    | [c], some name, some cid, some link =>
+    | [c], some name, some cid, some link0 =>
+      -- @D@ = the actual unpack directory: the sandbox root (one symbolic component @R@), the 30 chain levels, sb/target
+      let dpath := "@R@/" ++ String.join (List.replicate depth "n/") ++ "sb/target"
+      let link := (link0.replace "@D@" ("/" ++ dpath)).replace "@d@" dpath
       let typ := if c = 'h' then 'l' else c          -- hard links are unpacked as symbolic links
       some ⟨typ, GoPath.isAbs name, GoPath.comps name, cid, GoPath.isAbs link, GoPath.comps link, link⟩
     | _, _, _, _ => none
